@@ -210,6 +210,9 @@ impl Property for C02 {
             Tier::Thorough => Budget { cases: 150_000, shards: 16, min_len: 24, max_len: 280 },
         }
     }
+    fn fuzz_targets(&self) -> Vec<(&'static str, u64, usize)> {
+        vec![("prop", 400_000, 280)]
+    }
     fn rule(&self) -> String {
         "bytes -> ring (1..20 buckets x {1,2,7,10,100,250,500,1000} ms, or a real resource node 20x500), 1-3 read windows constructed to tile the ring (k | n buckets, s | k samples) or to be must-refuse (zero count, zero interval, non-dividing, not a multiple of the ring bucket, longer than the ring), invalid ring geometries, 4-64 ops write(dt, kind in Pass/Block/Complete/Error/Rt, amount) / read(dt, reader) with dt from a boundary menu; every read compares sum/qps/qps_previous/avg_rt/min_rt (and raw ring count/min_rt) for all five kinds with a definitional event-list model; non-trivial = a write evicted a bucket that held data (ring wrapped) and some read saw some but not all recorded events; distinct = distinct decoded cases".into()
     }
